@@ -47,6 +47,7 @@ BOUND = {
     'polynomials additionally on 40 abscissae; all 25 pairs and all 125 triples of parts x nesting x outer prefix x 3 part-prefix schemes, renamed to 12 prefixes; 5 models x 2 prefixes x 11^4 histories',
 }
 REQUIRED_CLASSES = [
+    'poly_integer_x_ok',
     'integral_ok', 'symmetric_ok', 'half_max_ok', 'prefix_identical', 'unit_ok', 'poly_ok', 'poly_cancelling',
     'composite2_ok', 'composite3_ok', 'refused_names', 'refused_units', 'guess_prefix_ok', 'bounds_prefix_ok',
     'shape_gaussian', 'shape_lorentzian', 'shape_pseudo_voigt', 'fraction_0', 'fraction_1', 'negative_amplitude',
@@ -462,6 +463,30 @@ def run_poly(case, rec):
         rec.cls('poly_ok')
     if np.any(v != 0):
         rec.nontrivial += 1
+    # the abscissa as whole numbers in an integer variable (channel numbers, whole microseconds): same x, same sum
+    for idt in ('int64', 'int32'):
+        xi_all = [-3, -1, 0, 1, 2, 7, 1000, 56250, 2_100_000, 10_000_000]
+        xint = sc.array(dims=['x'], values=np.array(xi_all, dtype=idt), unit=xu, dtype=idt)
+        snap_i = _snapshot(xint, p0)
+        try:
+            yi = m0(xint, **p0)
+        except Exception as e:  # noqa: BLE001
+            rec.viol(site, 'raises_for_integer_x', f'degree {degree}, x dtype {idt}: {type(e).__name__}: {str(e)[:120]}', dtype=idt)
+            continue
+        rec.transitions += 1
+        _untouched(rec, site, xint, p0, snap_i)
+        good = yi.unit == p0['a0'].unit and yi.shape == xint.shape
+        for xi, got in zip(xi_all, yi.values if good else [], strict=False):
+            want, cond = ps.poly_hp(coefs, float(xi))
+            tol = (2 * degree + 2) * EPS * float(cond)
+            rec.evals += 1
+            rec.validated += 1
+            if not abs(ps.mpf(float(got)) - want) <= tol:
+                good = False
+                rec.viol(site, 'power_sum_integer_x', f'degree {degree} coefficients {coefs} at x={xi} ({idt}): got {got!r}, sum a_i x^i = {float(want)!r}', x=xi, dtype=idt)
+                break
+        if good:
+            rec.cls('poly_integer_x_ok')
     check_orderings(rec, site, m0, p0, xs, v, xu)
     identical = True
     for prefix in PREFIXES[1:]:
